@@ -227,6 +227,9 @@ class Lib:
                 continue
             items = concrete_items(ip, st1, it)
             if items is None:
+                if isinstance(it, Sym) and (is_list_kind(it.kind) or it.kind == "bytes") and isinstance(g.target, ast.Name):
+                    yield from self.symbolic_listcomp(ip, st1, e, g, it)
+                    continue
                 raise Unsupported("list comprehension over symbolic sequence")
             cur = [(st1, [])]
             for x in items:
@@ -241,6 +244,50 @@ class Lib:
                 cur = nxt
             for s2, acc in cur:
                 yield s2, (acc if isinstance(acc, Raise) else s2.new_list(acc))
+
+    def reverse(self, ip, st, v):
+        """x[::-1]"""
+        if not is_sym(v):
+            items = concrete_items(ip, st, v)
+            if isinstance(v, (bytes, str, tuple)):
+                yield st, v[::-1]
+            elif items is not None:
+                yield st, st.new_list(list(reversed(items)))
+            else:
+                raise Unsupported("reverse of %r" % (v,))
+            return
+        if not (v.kind in ("bytes", "str") or is_list_kind(v.kind)):
+            raise Unsupported("reverse of a symbolic %r" % (v.kind,))
+        if v.kind == "str":
+            raise Unsupported("reverse of a symbolic str")
+        r = Sym(v.kind, tm.Fresh("reversed", kind_sort(v.kind)))
+        n = tm.Len(v.term)
+        st.assume(tm.Eq(tm.Len(r.term), n), axiom=True)
+        k = tm.BoundVar(tm.fresh_name("rv"), INT)
+        st.assume(tm.ForAll([k], tm.Implies(tm.And(tm.Le(tm.Int(0), k), tm.Lt(k, n)),
+                                           tm.Eq(tm.Nth(r.term, k), tm.Nth(v.term, tm.Sub(tm.Sub(n, tm.Int(1)), k))))), axiom=True)
+        yield st, r
+
+    def symbolic_listcomp(self, ip, st, e, g, seq):
+        """[elt for x in seq] over a symbolic list / byte string: the element expression is evaluated once on an arbitrary
+        element seq[k]; it must take a single path and yield a scalar, then the result r has len(r) == len(seq) and
+        r[k] == elt(seq[k]) for every k"""
+        k = tm.BoundVar(tm.fresh_name("lc"), INT)
+        probe = st.fork()
+        probe.in_quantifier = True
+        elem = L.elem_value(seq.kind, tm.Nth(seq.term, k))
+        outs = []
+        for s3, o in ip.assign(probe, g.target, elem):
+            outs.extend(ip.eval(e.elt, s3))
+        if len(outs) != 1 or isinstance(outs[0][1], Raise) or kind_of(outs[0][1]) not in ("int", "bool", "str", "bytes"):
+            raise Unsupported("list comprehension over a symbolic sequence whose element expression forks, raises or is not a scalar")
+        v = outs[0][1]
+        kk = kind_of(v)
+        r = Sym(("list", kk), tm.Fresh("listcomp", kind_sort(("list", kk))))
+        st.assume(tm.Eq(tm.Len(r.term), tm.Len(seq.term)), axiom=True)
+        rng = tm.And(tm.Le(tm.Int(0), k), tm.Lt(k, tm.Len(seq.term)))
+        st.assume(tm.ForAll([k], tm.Implies(rng, tm.Eq(tm.Nth(r.term, k), to_term(v)))), axiom=True)
+        yield st, r
 
     def with_stmt(self, ip, st, s):
         if len(s.items) != 1:
@@ -872,6 +919,25 @@ def _quant(ip, st, args, is_all):
     yield st, as_value("bool", r)
 
 
+@builtin("divmod")
+def _divmod(ip, st, args, kwargs):
+    a, b = args
+    if kind_of(a) not in ("int", "bool") or kind_of(b) not in ("int", "bool"):
+        raise Unsupported("divmod of non-integers")
+    if not is_sym(a) and not is_sym(b):
+        if b == 0:
+            yield st, Raise(mk_exc(st, "ZeroDivisionError", "integer division or modulo by zero"))
+        else:
+            yield st, divmod(int_of(a), int_of(b))
+        return
+    for s1, q in L.binop(ip, st, ast.FloorDiv(), a, b):
+        if isinstance(q, Raise):
+            yield s1, q
+            continue
+        for s2, r in L.binop(ip, s1, ast.Mod(), a, b):
+            yield s2, (r if isinstance(r, Raise) else (q, r))
+
+
 @builtin("all")
 def _all(ip, st, args, kwargs):
     yield from _quant(ip, st, args, True)
@@ -1253,6 +1319,34 @@ def _m_endswith(ip, st, recv, args, kwargs):
         yield st, recv.endswith(p)
         return
     yield st, as_value("bool", tm.SuffixOf(to_term(p), to_term(recv)))
+
+
+@method("bytes", "startswith")
+def _m_bstartswith(ip, st, recv, args, kwargs):
+    (p,) = args
+    if kind_of(p) != "bytes":
+        yield st, Raise(mk_exc(st, "TypeError", "startswith first arg must be bytes or a tuple of bytes"))
+        return
+    if not is_sym(recv) and not is_sym(p):
+        yield st, recv.startswith(p)
+        return
+    pt, rt = to_term(p), to_term(recv)
+    n = tm.Len(pt)
+    yield st, as_value("bool", tm.And(tm.Le(n, tm.Len(rt)), tm.Eq(tm.Extract(rt, tm.Int(0), n), pt)))
+
+
+@method("bytes", "endswith")
+def _m_bendswith(ip, st, recv, args, kwargs):
+    (p,) = args
+    if kind_of(p) != "bytes":
+        yield st, Raise(mk_exc(st, "TypeError", "endswith first arg must be bytes or a tuple of bytes"))
+        return
+    if not is_sym(recv) and not is_sym(p):
+        yield st, recv.endswith(p)
+        return
+    pt, rt = to_term(p), to_term(recv)
+    n = tm.Len(pt)
+    yield st, as_value("bool", tm.And(tm.Le(n, tm.Len(rt)), tm.Eq(tm.Extract(rt, tm.Sub(tm.Len(rt), n), n), pt)))
 
 
 utf8 = tm.FunDecl("utf8", [STR], BYTES)
